@@ -10,6 +10,7 @@ mod exec;
 mod lc;
 mod model;
 mod node;
+mod peerhdr;
 mod pool;
 mod scen;
 
